@@ -40,3 +40,6 @@ End AdjSpec.
 (** Plain reading for a list of lists that is not reindexed: occurrences of [j] in list number [i]. *)
 Definition occurrences (adj : list (list nat)) (i j : nat) : nat :=
   count_occ Nat.eq_dec (nth i adj []) j.
+
+(** The dict form with integer keys (the annotation says str, any hashable key works). *)
+Definition from_adjacency_dict_nat := @from_adjacency_dict nat Nat.eqb (fun k => Some k) nat_unique.
